@@ -44,9 +44,13 @@ inductive RStep where
   | unrecognised (go : String)
 deriving Repr, DecidableEq
 
-/-- synchronisation-relevant statements of `main` -/
+/-- the statements of `main` -/
 inductive MStep where
   | notifySigintSigterm | loadElements | spawnRunsCounted | spawnStats | awaitSignal | spawnShutdownsCounted | waitAll
+  | loadElementsIf (opts : List String) -- `if opts.A || opts.B … { LoadExtElements }`: the load under a guard (F34)
+  | makeSignalChan (cap : Nat) -- `signalCh = make(chan os.Signal, cap)` (in `main`'s declaration block)
+  | getOptions     -- `opts = GetOptions()`: flags, configuration file, pid-file test (may fork `kill -0`), pid-file write (F32)
+  | setUp          -- a statement that synchronises with nothing (`runtime.GOMAXPROCS`, `logger = …`, a log line, `protos := …`)
   | unrecognised (go : String)
 deriving Repr, DecidableEq
 
